@@ -89,7 +89,8 @@ def _type_safe_not_equal(a, b):
 
 
 def _not_equal_false(a):
-    return a != False
+    # not(a): True where a is False (the name is historic; `a != False` was a itself)
+    return a == False
 
 
 def _type_safe_is_in(a, b):
